@@ -308,6 +308,42 @@ def py_round(x):
 
 INT32_MIN, INT32_MAX = -(2 ** 31), 2 ** 31 - 1
 
+PRE_ALLOC = z3.Function("pre_alloc", Obj, z3.BoolSort())
+
+
+def alloc_axioms(exprs, param_refs=()):
+    """Closed-heap assumption: every reference stored in the *initial* heap (arrays named H0!...) and every
+    reference parameter denotes an object allocated before the call."""
+    seen = {}
+    stack = list(exprs)
+    visited = set()
+    while stack:
+        e = stack.pop()
+        if e.get_id() in visited:
+            continue
+        visited.add(e.get_id())
+        if z3.is_quantifier(e):
+            stack.append(e.body())
+            continue
+        if z3.is_const(e) and e.decl().kind() == z3.Z3_OP_UNINTERPRETED and e.decl().name().startswith("H0!"):
+            seen[e.decl().name()] = e
+        stack.extend(e.children())
+    axs = [PRE_ALLOC(r) for r in param_refs]
+    for name, arr in seen.items():
+        srt = arr.sort()
+        doms = []
+        cur = srt
+        term = arr
+        bound = []
+        while isinstance(cur, z3.ArraySortRef):
+            v = z3.Const(f"ax_{len(bound)}", cur.domain())
+            bound.append(v)
+            term = z3.Select(term, v)
+            cur = cur.range()
+        if cur == Obj and bound:
+            axs.append(z3.ForAll(bound, PRE_ALLOC(term)))
+    return axs
+
 
 # ---------------------------------------------------------------------------
 
@@ -321,6 +357,7 @@ class Exec:
         self.h = HeapOps(self)
         self.obls: list[Obligation] = []
         self.known_refs: list = []
+        self.fresh_objs: list = []
         self.ctypes = ctypes or {}         # cython: local name -> C type
         self.loop_ord = {}
         n = 0
@@ -388,15 +425,17 @@ class Exec:
 
     # -- allocation -----------------------------------------------------------
     def new_obj(self, st, base="new"):
+        """Fresh allocation: not allocated in the pre-state (so different from every reference held by the
+        initial heap or passed as a parameter) and different from earlier allocations."""
         o = z3.Const(T.fresh_name(base), Obj)
-        for r in self.known_refs:
+        st.pc.append(z3.Not(PRE_ALLOC(o)))
+        for r in self.fresh_objs:
             st.pc.append(o != r)
-        self.known_refs.append(o)
+        self.fresh_objs.append(o)
         return o
 
     def note_ref(self, e):
-        if len(self.known_refs) < 200:
-            self.known_refs.append(e)
+        self.known_refs.append(e)
 
     # -- truthiness ----------------------------------------------------------
     def truthy(self, st, v: V):
@@ -1135,7 +1174,7 @@ class Exec:
                 continue
             st0 = o.st
             cs = z3.simplify(c)
-            took = 0
+            b1 = b2 = None
             if not z3.is_false(cs):
                 h = st0.pc + [c]
                 if z3.is_true(cs) or self.feasible(h):
@@ -1143,8 +1182,7 @@ class Exec:
                     if not z3.is_true(cs):
                         s1.pc.append(c)
                     s1.trace.append("T")
-                    outs.extend(self.run_block(s.body, s1))
-                    took += 1
+                    b1 = self.run_block(s.body, s1)
             if not z3.is_true(cs):
                 h = st0.pc + [z3.Not(c)]
                 if z3.is_false(cs) or self.feasible(h):
@@ -1152,9 +1190,64 @@ class Exec:
                     if not z3.is_false(cs):
                         s2.pc.append(z3.Not(c))
                     s2.trace.append("F")
-                    outs.extend(self.run_block(s.orelse, s2))
-                    took += 1
+                    b2 = self.run_block(s.orelse, s2)
+            merged = None
+            if b1 is not None and b2 is not None and len(b1) == 1 and len(b2) == 1 \
+                    and b1[0].kind == "normal" and b2[0].kind == "normal":
+                merged = self._merge(st0, c, b1[0].st, b2[0].st)
+            if merged is not None:
+                outs.append(Outcome("normal", merged))
+            else:
+                outs.extend(b1 or [])
+                outs.extend(b2 or [])
         return outs
+
+    def _merge(self, st0, c, sa, sb):
+        """Join two straight-line branch results into one state (values become ite terms)."""
+        n0 = len(st0.pc)
+        if sa.pc[:n0] != st0.pc or sb.pc[:n0] != st0.pc:
+            if not (all(x is y or x.eq(y) for x, y in zip(sa.pc[:n0], st0.pc)) and
+                    all(x is y or x.eq(y) for x, y in zip(sb.pc[:n0], st0.pc))):
+                return None
+        m = st0.fork()
+        m.trace = list(st0.trace) + ["m"]
+        extra_a = [p for p in sa.pc[n0:] if not p.eq(c)]
+        extra_b = [p for p in sb.pc[n0:] if not p.eq(z3.Not(c))]
+        for p in extra_a:
+            m.pc.append(z3.Implies(c, p))
+        for p in extra_b:
+            m.pc.append(z3.Implies(z3.Not(c), p))
+        names = set(sa.env) | set(sb.env)
+        env = {}
+        for n in names:
+            va, vb = sa.env.get(n), sb.env.get(n)
+            if va is None or vb is None:
+                continue          # defined on one branch only: unusable afterwards unless re-assigned
+            if va is vb:
+                env[n] = va
+                continue
+            try:
+                if isinstance(va.ty, T.Fn) or isinstance(vb.ty, T.Fn):
+                    return None
+                v = T.ite(c, va, vb)
+                v.cint = va.cint and vb.cint
+                env[n] = v
+            except T.TypeErr:
+                return None
+        m.env = env
+        heap = {}
+        for k in set(sa.heap) | set(sb.heap):
+            ha, hb = sa.heap.get(k), sb.heap.get(k)
+            if ha is None or hb is None:
+                other = ha if ha is not None else hb
+                init = z3.Const("H0!" + k, other.sort()) if not k.startswith("$epoch") else None
+                if init is None:
+                    continue
+                ha = ha if ha is not None else init
+                hb = hb if hb is not None else init
+            heap[k] = ha if ha.eq(hb) else z3.If(c, ha, hb)
+        m.heap = heap
+        return m
 
     def st_With(self, s, st):
         # only contextlib.suppress(...) and plain resource managers with no modelled effect
